@@ -81,7 +81,7 @@ fn strings_db(rows: u32) -> AbsDb {
 }
 
 /// A file whose string pool has exactly `entries` entries.
-fn file_with_pool(entries: u32) -> Result<Vec<u8>, Fail> {
+pub fn file_with_pool(entries: u32) -> Result<Vec<u8>, Fail> {
     let probe = enc::encode_db(&strings_db(10)).map_err(|e| Fail::new(format!("{P} harness-encoder"), e))?;
     let base = fmt::decode(&probe).map_err(|e| Fail::new(format!("{P} harness-encoder"), e))?.pool.entries.len() as u32 - 10;
     let rows = entries.saturating_sub(base);
@@ -215,7 +215,20 @@ fn approach(l: &Limit) -> Result<(Package<SharedBuf>, SharedBuf, Snapshot, std::
             let c = ['日', 'é', '😀'][*which as usize % 3];
             let name: String = std::iter::once('n').chain(std::iter::repeat(c).take(*n)).collect();
             let units = fmt::encode_name(&name, false).encode_utf16().count();
+            // write, read back, remove and write again: a name within the
+            // limit is within it for every stream call
             let r = (|| -> std::io::Result<()> {
+                {
+                    let mut w = pkg.write_stream(&name)?;
+                    w.write_all(b"payload")?;
+                    w.flush()?;
+                }
+                {
+                    use std::io::Read;
+                    let mut b = Vec::new();
+                    pkg.read_stream(&name)?.read_to_end(&mut b)?;
+                }
+                pkg.remove_stream(&name)?;
                 let mut w = pkg.write_stream(&name)?;
                 w.write_all(b"payload")?;
                 w.flush()
@@ -227,7 +240,20 @@ fn approach(l: &Limit) -> Result<(Package<SharedBuf>, SharedBuf, Snapshot, std::
             let before = snap(&mut pkg)?;
             let name: String = if *mixed { "a-".chars().cycle().take(*n).collect() } else { "abcdefghijklmnopqrstuvwxyz0123456789._".chars().cycle().take(*n).collect() };
             let units = fmt::encode_name(&name, false).encode_utf16().count();
+            // write, read back, remove and write again: a name within the
+            // limit is within it for every stream call
             let r = (|| -> std::io::Result<()> {
+                {
+                    let mut w = pkg.write_stream(&name)?;
+                    w.write_all(b"payload")?;
+                    w.flush()?;
+                }
+                {
+                    use std::io::Read;
+                    let mut b = Vec::new();
+                    pkg.read_stream(&name)?.read_to_end(&mut b)?;
+                }
+                pkg.remove_stream(&name)?;
                 let mut w = pkg.write_stream(&name)?;
                 w.write_all(b"payload")?;
                 w.flush()
